@@ -62,15 +62,32 @@ def run(repo, rep, tier):
     if ok:
         rv = [n for n in walk_no_nested(res) if isinstance(n, ast.Assign) and unparse(n.value) == unparse(gai[0])]
         rname = unparse(rv[0].targets[0]) if rv else None
-        loops = [n for n in walk_no_nested(res) if isinstance(n, ast.For) and unparse(n.iter) == rname]
-        ok2 = len(loops) == 1 and isinstance(loops[0].target, ast.Tuple) and len(loops[0].target.elts) == 5
-        if ok2:
-            names = [unparse(e) for e in loops[0].target.elts]
-            ys = [n for n in walk_no_nested(loops[0]) if isinstance(n, ast.Yield)]
-            ok2 = len(ys) == 1 and unparse(ys[0].value) == '(%s, %s)' % (names[0], names[4])
-            conds = [(unparse(t), p) for t, p, k in path_condition(ys[0]) if k == 'if'] if ys else []
-            ok2 = ok2 and conds == [('%s == socket.SOCK_STREAM' % names[1], True)]
-        rep.check('dial', 'the resolver yields (family, sockaddr) of stream results only, in result order', ok2, loops[0] if loops else res, 'yield of _resolve changed')
+        from sa.logic import implied_atoms as _ia18
+        # every yield of the resolver: (family, sockaddr) of one 5-tuple of the result list, under "socket type is SOCK_STREAM" -- written as a loop with an if,
+        # a loop with a `continue` guard, or `yield from` a generator expression
+        found = []
+        for y in walk_no_nested(res):
+            if isinstance(y, ast.Yield):
+                lp_ = y
+                while lp_ is not None and not (isinstance(lp_, ast.For) and unparse(lp_.iter) == rname):
+                    lp_ = getattr(lp_, '_parent', None)
+                if lp_ is None or not (isinstance(lp_.target, ast.Tuple) and len(lp_.target.elts) == 5):
+                    found.append((y, False))
+                    continue
+                names = [unparse(e) for e in lp_.target.elts]
+                atoms = {(unparse(t), p) for t, p in _ia18(path_condition(y, stop=lp_))}
+                stream = bool(atoms & {('%s == socket.SOCK_STREAM' % names[1], True), ('%s != socket.SOCK_STREAM' % names[1], False)})
+                found.append((y, y.value is not None and unparse(y.value) == '(%s, %s)' % (names[0], names[4]) and stream))
+            elif isinstance(y, ast.YieldFrom):
+                g = y.value
+                okg = isinstance(g, ast.GeneratorExp) and len(g.generators) == 1 and unparse(g.generators[0].iter) == rname and isinstance(g.generators[0].target, ast.Tuple) and len(g.generators[0].target.elts) == 5
+                if okg:
+                    names = [unparse(e) for e in g.generators[0].target.elts]
+                    atoms = {(unparse(t), p) for t, p in _ia18([(c_, True, 'comp') for c_ in g.generators[0].ifs])}
+                    okg = unparse(g.elt) == '(%s, %s)' % (names[0], names[4]) and bool(atoms & {('%s == socket.SOCK_STREAM' % names[1], True), ('%s != socket.SOCK_STREAM' % names[1], False)})
+                found.append((y, okg))
+        ok2 = len(found) == 1 and found[0][1]
+        rep.check('dial', 'the resolver yields (family, sockaddr) of stream results only, in result order', ok2, found[0][0] if found else res, 'yield of _resolve changed')
         others = [n for n in walk_no_nested(res) if isinstance(n, ast.Assign) and unparse(n.targets[0]) == rname and n not in rv]
         for o in others:
             v = o.value
@@ -132,18 +149,24 @@ def run(repo, rep, tier):
     rep.check('dial', 'every listed entry gets its own scan, also when a host is listed with several ports', r2['submitted'] == [('alpha.example', 22), ('alpha.example', 2222), ('beta.example', 22), ('beta.example', 22)], mn,
               'for the entries %s the tasks submitted are %s' % (ent2, r2['submitted']), stmt='one scan per entry')
     rep.check('dial', 'each task receives the host and the port of the parsed pair it stands for, in that order', r['submitted'] == want, mn, 'tasks submitted with (host, port) = %s, the parsed pairs are %s' % (r['submitted'], want), stmt='tasks per parsed pair')
-    # command line: host/port stores
-    st = [n for n in walk_no_nested(pc) if isinstance(n, ast.Assign) and unparse(n.targets[0]) in ('aconf.host', 'aconf.port')]
-    ok = sorted((unparse(n.targets[0]), unparse(n.value)) for n in st) == [('aconf.host', 'host'), ('aconf.port', 'port')]
-    rep.check('dial', 'command line stores the parsed host and port', ok, pc, 'aconf.host/port stores: %s' % [(unparse(n.targets[0]), unparse(n.value)) for n in st])
-    hd = assigned(pc, 'host')
-    vals = sorted(unparse(n.value) for n in hd)
-    rep.check('dial', 'host comes from the positional argument (alone with -p, else split by parse_host_and_port)', vals == ["''", 'Utils.parse_host_and_port(argument.host)', 'argument.host'], hd[0] if hd else pc, 'host definitions: %s' % vals)
-    pd = assigned(pc, 'port')
-    vals = sorted(unparse(n.value) for n in pd)
-    rep.check('dial', 'port comes from -p, the target spelling, or the defaults 22 / 2222', vals == ['22', '2222', 'Utils.parse_host_and_port(argument.host)', 'Utils.parse_int(oport)'], pd[0] if pd else pc, 'port definitions: %s' % vals)
-    od = assigned(pc, 'oport')
-    rep.check('dial', '-p value is argument.oport', sorted(unparse(n.value) for n in od) == ['argument.oport'] or sorted(unparse(n.value) for n in od) == ['None', 'argument.oport'], pc, 'oport definitions changed')
+    # command line: the statements aconf.host / aconf.port depend on are sliced out of process_commandline and interpreted (props/_cmdline.py) for every
+    # combination of positional target, -p, client audit: without -p the target is split by Utils.parse_host_and_port and both parts are stored; with -p the
+    # positional argument is the host as written and the port is the -p value, which must lie in 1..65535; a client audit listens on 2222 unless -p says otherwise;
+    # a missing host is rejected
+    from props import _cmdline
+    P_ = lambda v: (('H<%s>' % v) if v else '', 'P<%s>' % v)       # noqa: E731 -- marker for "what parse_host_and_port returned for v"
+    cases = [(('h', None, False), ('H<h>', 'P<h>')), (('h:2022', None, False), ('H<h:2022>', 'P<h:2022>')), (('[::1]:2022', None, False), ('H<[::1]:2022>', 'P<[::1]:2022>')),
+             (('h', '2222', False), ('h', 2222)), (('h:1', '1', False), ('h:1', 1)), (('h', '65535', False), ('h', 65535)),
+             (('', None, False), ('exit', None)), (('h', '0', False), ('exit', None)), (('h', '65536', False), ('exit', None)), (('h', '-5', False), ('exit', None)),
+             (('', None, True), ('', 2222)), (('', '2200', True), ('', 2200)), (('', '0', True), ('exit', None))]
+    badc = []
+    for (host_arg, oport, client), want in cases:
+        got = _cmdline.hostport(repo, host_arg, oport, client_audit=client, parse=P_)
+        rep.evals()
+        if got != want:
+            badc.append('target %r%s%s -> host/port %r, expected %r' % (host_arg, ' -p %s' % oport if oport is not None else '', ' (client audit)' if client else '', got, want))
+    rep.check('dial', 'command line: host and port stored are the parsed target, or the host as written with the -p value (1..65535); client audits default to 2222 (%d cases)' % len(cases), not badc, pc,
+              'command-line target selection changed -- %s' % (badc[0] if badc else ''), stmt='command line host/port')
 
     # ---- rule 2: labels --------------------------------------------------------------------------------------------------
     # output() (with the target line requested) and evaluate_policy() interpreted for host H, ports 22 / 2222, IPv4-style and IPv6 host (props/_sections.py):
@@ -233,76 +256,114 @@ def run(repo, rep, tier):
                 rep.check('port', 'no store bypasses the validating setter', False, n, 'object.__setattr__ used outside AuditConf.__setattr__')
             if isinstance(n, ast.Attribute) and n.attr == '__dict__' and n._cls is not None and n._cls.name == 'AuditConf' and not (n._func is not None and n._func.name in ('__deepcopy__', '__copy__', '__getstate__', '__setstate__', '__reduce__', '__reduce_ex__')):
                 rep.check('port', 'no store bypasses the validating setter', False, n, 'AuditConf.__dict__ manipulated directly')
-    # the -p guard precedes the store into aconf
-    if st:
-        gl = [n for n in walk_no_nested(pc) if isinstance(n, ast.If) and '65535' in unparse(n.test)]
-        rep.check('port', 'command-line range check precedes the configuration store', bool(gl) and all(g.lineno < s.lineno for g in gl for s in st), pc, 'port stored before validation')
+    # (that an out-of-range -p value is rejected before anything is stored is decided by the command-line model above: -p 0 / 65536 / -5 end in sys.exit)
 
     # ---- rule 4: targets file ---------------------------------------------------------------------------------------------------
-    tls = [n for n in walk_no_nested(pc) if isinstance(n, ast.Assign) and unparse(n.targets[0]) == 'aconf.target_list' and isinstance(n.value, ast.ListComp)]
+    # the statement(s) that normalise the lines read from the targets file, interpreted on a file with padded, blank and whitespace-only lines: the entries
+    # parsed later are the stripped non-empty lines, in order
+    from sa.listinterp import Interp as _I18
+    from sa.abseval import Unknown as _U18
+    tls = [n for n in walk_no_nested(pc) if isinstance(n, ast.Assign) and unparse(n.targets[0]) == 'aconf.target_list' and not (isinstance(n.value, ast.Call) and unparse(n.value.func).endswith('readlines'))]
     rep.floor('targets-file', 'targets-file normalisation', len(tls), 1)
-    for t in tls:
-        lc = t.value
-        g = lc.generators[0]
-        var = unparse(g.target)
-        elt = unparse(lc.elt)
-        rep.check('targets-file', 'entries are whitespace-stripped', elt == '%s.strip()' % var, t, 'entries normalised as %s' % elt)
-        transformed = elt != var
-        for cond in g.ifs:
-            tested_raw = var in [x.id for x in ast.walk(cond) if isinstance(x, ast.Name)] and elt not in unparse(cond)
-            rep.check('targets-file', 'the emptiness filter tests the same normalised value that is parsed', not (transformed and tested_raw), t,
-                      'blank-line filter `%s` tests the raw line while the entry used is `%s`: a whitespace-only line survives as an empty target' % (unparse(cond), elt), stmt='aconf.target_list = [... if ...]')
-        rep.check('targets-file', 'blank lines are filtered', len(g.ifs) >= 1, t, 'no blank-line filter')
+    raw = ['alpha\n', '  beta:2222  \n', '\n', '   \t \n', 'gamma', '\r\n', ' [::1]:22\r\n']
+
+    def hook_tl(call, e, interp):
+        f_ = call.func
+        if unparse(f_) == 'map' and len(call.args) == 2 and unparse(call.args[0]) in ('str.strip', 'str.rstrip', 'str.lstrip'):
+            seq = interp.value(call.args[1], e)
+            if isinstance(seq, list) and all(isinstance(x, str) for x in seq):
+                return (True, [getattr(str, unparse(call.args[0]).split('.')[1])(x) for x in seq])
+        return None
+    try:
+        fin = _I18(call_hook=hook_tl).run(tls, {'aconf': None, 'aconf.target_list': list(raw)})
+    except _U18 as ex:
+        raise AnalysisError('targets-file normalisation cannot be interpreted: %s' % ex)
+    got_tl = fin[0].get('aconf.target_list') if len(fin) == 1 and not fin[0].get('<forks>') else None
+    want_tl = ['alpha', 'beta:2222', 'gamma', '[::1]:22']
+    rep.check('targets-file', 'entries are whitespace-stripped, blank and whitespace-only lines are dropped, order kept', got_tl == want_tl, tls[0],
+              'targets-file lines %r are normalised to %r, expected %r: a whitespace-only line survives as an empty target, or an entry keeps its padding' % (raw, got_tl, want_tl), stmt='aconf.target_list = [... if ...]')
 
     # ---- rule 5: address family ------------------------------------------------------------------------------------------------------
-    fam = [n for n in walk_no_nested(res) if isinstance(n, ast.Assign) and unparse(n.targets[0]) == 'family']
-    rep.floor('family', 'family assignments in _resolve', len(fam), 2)
     AF = {'socket.AF_INET': 'AF_INET', 'socket.AF_INET6': 'AF_INET6', 'socket.AF_UNSPEC': 'AF_UNSPEC', 'socket.SOCK_STREAM': 'STREAM'}
 
     def family_table(func, prefname, what, node):
+        # the statements in front of the getaddrinfo call are interpreted for every preference list; the family is what the call receives as third argument
+        pre, gcall = [], None
+        for st_ in func.body:
+            calls_ = [x for x in ast.walk(st_) if isinstance(x, ast.Call) and unparse(x.func) == 'socket.getaddrinfo']
+            if calls_:
+                gcall = calls_[0]
+                break
+            if not (isinstance(st_, ast.Expr) and isinstance(st_.value, ast.Constant)):
+                pre.append(st_)
+        if gcall is None or len(gcall.args) < 3:
+            raise AnalysisError('%s: getaddrinfo(host, port, family, ...) call not found' % what)
+
+        def _res18(call):
+            f_ = call.func
+            if isinstance(f_, ast.Attribute) and isinstance(f_.value, ast.Name) and f_.value.id in ('self', 'cls', func._cls.name if getattr(func, '_cls', None) is not None else '') \
+                    and getattr(func, '_cls', None) is not None and repo.has_func(func._module.name, '%s.%s' % (func._cls.name, f_.attr)):
+                return repo.func(func._module.name, '%s.%s' % (func._cls.name, f_.attr))
+            return None
         rows = {}
         for pref in ([], [4], [6], [4, 6], [6, 4]):
             env = dict(AF)
-            env[prefname] = pref
-            env['family'] = None
-            track_block(func.body, env, {'family'}, on_eval=rep.evals, hook=lambda n: None)
-            rows[tuple(pref)] = env['family']
+            env[prefname] = list(pref)
+            env['self'] = None
+            it_ = _I18(resolver=_res18)
+            try:
+                fin_ = it_.run(pre, env)
+                if len(fin_) != 1 or fin_[0].get('<forks>'):
+                    raise _U18('family selection forks on %s' % [f.get('<forks>') for f in fin_][:1])
+                rows[tuple(pref)] = it_.value(gcall.args[2], fin_[0])
+            except _U18 as ex:
+                raise AnalysisError('%s: address family selection cannot be interpreted: %s' % (what, ex))
+            rep.evals()
         want = {(): 'AF_UNSPEC', (4,): 'AF_INET', (6,): 'AF_INET6', (4, 6): 'AF_UNSPEC', (6, 4): 'AF_UNSPEC'}
         rep.check('family', '%s: address family per preference list' % what, rows == want, node, '%s family selection is %s' % (what, rows), sample={'rule': 'family', 'function': what, 'table': {str(k): v for k, v in rows.items()}})
         return rows
-
-    def stop_at_getaddrinfo(func):
-        # evaluate only the statements up to the getaddrinfo call
-        out = []
-        for s in func.body:
-            if any(isinstance(x, ast.Call) and unparse(x.func) == 'socket.getaddrinfo' for x in ast.walk(s)):
-                break
-            out.append(s)
-        return out
-
-    class _F:
-        pass
-    f1 = _F()
-    f1.body = [s for s in stop_at_getaddrinfo(res) if not (isinstance(s, ast.Expr) and isinstance(s.value, ast.Constant))]
-    family_table(f1, 'self.__ip_version_preference', 'SSH_Socket._resolve', res)
+    family_table(res, 'self.__ip_version_preference', 'SSH_Socket._resolve', res)
 
     def sort_rule(func, prefname, what):
-        srt = [n for n in walk_no_nested(func) if isinstance(n, ast.Call) and isinstance(n.func, ast.Name) and n.func.id == 'sorted']
-        ok = len(srt) == 1
-        if ok:
-            s0 = srt[0]
-            key = get_kw(s0, 'key')
-            rev = get_kw(s0, 'reverse')
-            conds = [(unparse(t), p) for t, p, k in path_condition(s0) if k == 'if']
-            ok = key is not None and unparse(key) == 'lambda x: x[0]' and rev is not None and unparse(rev) == '%s[0] == 6' % prefname and conds == [('len(%s) == 2' % prefname, True)]
-        return ok, (srt[0] if srt else func)
+        """the statements between the getaddrinfo call and the first loop / yield, interpreted on a three-entry answer list (IPv6, IPv4, IPv6): with the two-entry
+        preference [4, 6] IPv4 answers come first, with [6, 4] IPv6 answers, in both cases otherwise in the resolver's order; other preferences leave the list alone"""
+        body = list(func.body)
+        gi = [k for k, st_ in enumerate(body) if any(isinstance(x, ast.Call) and unparse(x.func) == 'socket.getaddrinfo' for x in ast.walk(st_))]
+        if len(gi) != 1 or not isinstance(body[gi[0]], ast.Assign) or not isinstance(body[gi[0]].targets[0], ast.Name):
+            return False, func
+        rname_ = body[gi[0]].targets[0].id
+        pre = [st_ for st_ in body[:gi[0]] if not (isinstance(st_, ast.Expr) and isinstance(st_.value, ast.Constant))]
+        post = []
+        for st_ in body[gi[0] + 1:]:
+            if isinstance(st_, (ast.For, ast.While, ast.Return)) or any(isinstance(x, (ast.Yield, ast.YieldFrom)) for x in ast.walk(st_)):
+                break
+            post.append(st_)
+        answers = [(10, 1, 6, '', ('::1', 22, 0, 0)), (2, 1, 6, '', ('127.0.0.1', 22)), (10, 1, 6, '', ('::2', 22, 0, 0))]
+        want = {(): answers, (4,): answers, (6,): answers, (4, 6): [answers[1], answers[0], answers[2]], (6, 4): [answers[0], answers[2], answers[1]]}
+        node_ = post[0] if post else func
+        for pref in want:
+            env = {'socket.AF_INET': 2, 'socket.AF_INET6': 10, 'socket.AF_UNSPEC': 0, 'socket.SOCK_STREAM': 1, prefname: list(pref), 'self': None}
+            it_ = _I18()
+            try:
+                fin_ = it_.run(pre, env)
+                if len(fin_) != 1 or fin_[0].get('<forks>'):
+                    raise _U18('forks')
+                e_ = fin_[0]
+                e_[rname_] = list(answers)
+                fin2 = it_.run(post, {k: v for k, v in e_.items() if not (isinstance(k, str) and k.startswith('<'))})
+                if len(fin2) != 1 or fin2[0].get('<forks>'):
+                    raise _U18('forks')
+            except _U18 as ex:
+                raise AnalysisError('%s: ordering of the resolver answers cannot be interpreted: %s' % (what, ex))
+            rep.evals()
+            if fin2[0].get(rname_) != want[pref]:
+                return False, node_
+        return True, node_
     ok, node = sort_rule(res, 'self.__ip_version_preference', '_resolve')
     rep.check('family', '_resolve: with two preferences results are ordered by family, IPv6 first iff the first preference is 6', ok, node, 'two-entry preference ordering changed in SSH_Socket._resolve')
     rh = repo.func('dheat', 'DHEat._resolve_hostname')
     rep.saw(rh)
-    f2 = _F()
-    f2.body = [s for s in stop_at_getaddrinfo(rh) if not (isinstance(s, ast.Expr) and isinstance(s.value, ast.Constant))]
-    family_table(f2, 'ip_version_preference', 'DHEat._resolve_hostname', rh)
+    family_table(rh, 'ip_version_preference', 'DHEat._resolve_hostname', rh)
     ok2, node2 = sort_rule(rh, 'ip_version_preference', '_resolve_hostname')
     rep.check('family', 'the rate test\'s resolver orders two-family results like SSH_Socket._resolve', ok2, rh,
               'DHEat._resolve_hostname ignores the -46/-64 order preference: the rate test of a standard audit may dial a different address family than the audit itself', stmt='sibling of SSH_Socket._resolve ordering')
